@@ -4,6 +4,7 @@ import (
 	"go/token"
 	"go/types"
 	"net/textproto"
+	"sort"
 	"strings"
 
 	"golang.org/x/tools/go/ssa"
@@ -390,6 +391,8 @@ func runC03more(c *Ctx) {
 	runC03EndAlwaysEmitted(c)
 	runC03WebTrailerNames(c)
 	runC03EarlyEndScrubs(c)
+	runC03ErrorBodyLabelled(c)
+	runC03ErrorBodyCompression(c)
 	// ---------------------------------------------------------------- C03.12
 	c.Rule("C03.12", "an enveloped unit is decompressed exactly when its own envelope's compressed flag says so", 2)
 	checkUnitFlagDecompress(c, "C03.12")
@@ -1173,5 +1176,178 @@ func runC03EarlyEndScrubs(c *Ctx) {
 	}
 	if n == 0 {
 		c.Bad("C03.17", "responseWriter", "early-end-removes", token.NoPos, "no flush of the client's headers under 'backend headers not processed yet' found: shape changed")
+	}
+}
+
+// runC03ErrorBodyLabelled: C03.18 (defect D58).  Client protocols whose end travels in the response
+// head (Connect unary, REST) send an error as a JSON body.  Whatever Content-Type is in the header
+// map by then (the backend's own, that of an HttpBody message) describes another body, so on every
+// path of addProtocolResponseHeaders that computes the HTTP status of an error, Content-Type is
+// stored as the constant "application/json" - not only 'if none is set yet'.
+func runC03ErrorBodyLabelled(c *Ctx) {
+	p := c.P
+	c.Rule("C03.18", "un-enveloped client protocols label an error body application/json on every error path", 2)
+	cph := p.Iface("clientProtocolHandler")
+	eph := p.Iface("envelopedProtocolHandler")
+	statusFn := p.MustFunc("httpStatusCodeFromRPC")
+	n := 0
+	for _, t := range p.Implementers(cph) {
+		if eph != nil && (types.Implements(t, eph) || types.Implements(types.NewPointer(t), eph)) {
+			continue
+		}
+		fn := p.MethodOf(t, "addProtocolResponseHeaders")
+		if fn == nil {
+			continue
+		}
+		var statusCalls []ssa.Instruction
+		for _, call := range Calls(fn) {
+			if call.Common().StaticCallee() == statusFn {
+				statusCalls = append(statusCalls, call)
+			}
+		}
+		if len(statusCalls) == 0 {
+			continue // no error status computed here (gRPC-style protocols answer 200)
+		}
+		n++
+		isJSONStore := func(in ssa.Instruction) bool {
+			for _, hm := range HeaderMutations(fn) {
+				if hm.Instr != in || hm.Key == nil || hm.Val == nil || (hm.Op != "Set" && hm.Op != "index") {
+					continue
+				}
+				k, isK := ConstString(hm.Key)
+				if !isK || textproto.CanonicalMIMEHeaderKey(k) != "Content-Type" {
+					continue
+				}
+				vals := append([]ssa.Value{hm.Val}, sliceLiteralElems(hm.Val)...)
+				for _, v := range vals {
+					if s, ok := ConstString(v); ok && s == "application/json" {
+						return true
+					}
+				}
+			}
+			return false
+		}
+		paths, ok := EnumPaths(fn.Blocks[0], nil, IsReturn, 0)
+		if !ok {
+			c.Unknown("C03.18", typeName(t), "error-body-labelled-json", fn.Pos(), "too many paths")
+			continue
+		}
+		bad := 0
+		for _, cp := range paths {
+			errPath, labelled := false, false
+			for _, b := range cp.Blocks {
+				for _, in := range b.Instrs {
+					for _, sc := range statusCalls {
+						if in == sc {
+							errPath = true
+						}
+					}
+					if isJSONStore(in) {
+						labelled = true
+					}
+				}
+			}
+			if errPath && !labelled {
+				bad++
+			}
+		}
+		c.Check(bad == 0, "C03.18", typeName(t), "error-body-labelled-json", fn.Pos(),
+			"every path that computes an error's HTTP status stores Content-Type: application/json",
+			itoa(bad)+" path(s) compute the HTTP status of an error without storing Content-Type: application/json: the JSON error body goes out under whatever content type is already in the header map (the backend's own, an HttpBody message's)")
+	}
+	if n < 2 {
+		c.Bad("C03.18", "clientProtocolHandler", "error-body-labelled-json", token.NoPos, "fewer than two un-enveloped client protocols compute an error status in addProtocolResponseHeaders ("+itoa(n)+"): shape changed")
+	}
+}
+
+// runC03ErrorBodyCompression: C03.19 (defect D57).  A server protocol's response-header extraction
+// that hands back a body unmarshaller announces 'an error body follows; collect it and parse it'.
+// The collector decompresses by responseMeta.compression.  On those returns the field therefore
+// has the same kind of origin as on the protocol's ordinary returns: the value of the
+// content-encoding header - never just the zero value while the ordinary path reads the header.
+func runC03ErrorBodyCompression(c *Ctx) {
+	p := c.P
+	c.Rule("C03.19", "a response announced as 'error body follows' carries the declared content encoding like an ordinary response", 2)
+	sph := p.Iface("serverProtocolHandler")
+	comprF := p.MustField("responseMeta", "compression")
+	n := 0
+	for _, t := range p.Implementers(sph) {
+		fn := p.MethodOf(t, "extractProtocolResponseHeaders")
+		if fn == nil {
+			continue
+		}
+		headerKeysOf := func(v ssa.Value, at ssa.Instruction) map[string]bool {
+			out := map[string]bool{}
+			for _, l := range StructFieldOriginsAt(v, comprF, at) {
+				if l.Kind == "call" && IsCallTo(l.Call, "(net/http.Header).Get", "(net/http.Header).Values") {
+					if k, ok := ConstString(l.Call.Common().Args[1]); ok {
+						out[textproto.CanonicalMIMEHeaderKey(k)] = true
+					}
+				}
+			}
+			return out
+		}
+		ordinary := map[string]bool{}
+		type er struct {
+			ret  *ssa.Return
+			keys map[string]bool
+		}
+		var errRets []er
+		for _, b := range fn.Blocks {
+			ret, ok := b.Instrs[len(b.Instrs)-1].(*ssa.Return)
+			if !ok || len(ret.Results) < 3 {
+				continue
+			}
+			if !IsNilConst(ret.Results[2]) {
+				if _, isC := ret.Results[2].(*ssa.Const); !isC {
+					// may be a real error: only when definitely non-nil skip; a phi/err variable is treated as a normal return
+					if NeverNilError(ret.Results[2], 0) {
+						continue
+					}
+				}
+			}
+			keys := headerKeysOf(ret.Results[0], ret)
+			hasUnm := false
+			for _, l := range Origins(ret.Results[1]) {
+				if l.Kind != "nil" && !(l.Kind == "const" && IsNilConst(l.V)) {
+					hasUnm = true
+				}
+			}
+			if hasUnm {
+				errRets = append(errRets, er{ret, keys})
+			}
+			if !hasUnm || len(keys) > 0 {
+				for k := range keys {
+					ordinary[k] = true
+				}
+			}
+		}
+		if len(errRets) == 0 || len(ordinary) == 0 {
+			continue // no body unmarshaller, or the protocol declares compression elsewhere (per-message)
+		}
+		for i, e := range errRets {
+			n++
+			ok := false
+			for k := range e.keys {
+				if ordinary[k] {
+					ok = true
+				}
+			}
+			construct := "error-body-compression"
+			if i > 0 {
+				construct += "|#" + itoa(i+1)
+			}
+			var ks []string
+			for k := range ordinary {
+				ks = append(ks, k)
+			}
+			sort.Strings(ks)
+			c.Check(ok, "C03.19", typeName(t), construct, e.ret.Pos(),
+				"the meta returned together with a body unmarshaller takes its compression from "+joinStr(ks)+" like the ordinary returns",
+				"this return announces an error body to be collected and parsed but its responseMeta.compression does not come from "+joinStr(ks)+" (as on the ordinary returns): a compressed error body is parsed while still compressed, the parse fails, and code, message and details of the backend's error are replaced by a guess from the HTTP status")
+		}
+	}
+	if n < 2 {
+		c.Bad("C03.19", "serverProtocolHandler", "error-body-compression", token.NoPos, "fewer than two returns with a body unmarshaller found ("+itoa(n)+"): shape changed")
 	}
 }
